@@ -350,4 +350,260 @@ theorem drivePost_gaussian' (m : Nat) (x0 x1 x2 K mu sigma guess search delta np
   rw [e1, e2, Real.exp_add, Real.exp_log hK, exp_half_log _ hpos,
     Real.sqrt_mul (by positivity), Real.sqrt_sq hs.le]
 
+/-! ## The peak bin: `np.where(mask)[0][0] + np.argmax(mags[mask])` -/
+
+theorem argmaxGo_spec (t : List ℝ) : ∀ (k bi : Nat) (bv : ℝ),
+    (argmaxGo t k bi bv = bi ∧ ∀ x ∈ t, x ≤ bv) ∨
+    (∃ j, ∃ hj : j < t.length, argmaxGo t k bi bv = k + j ∧ bv < t[j] ∧ (∀ x ∈ t, x ≤ t[j]) ∧
+      ∀ i (hi : i < j), t[i] < t[j]) := by
+  induction t with
+  | nil => intro k bi bv; left; exact ⟨rfl, by simp⟩
+  | cons x t ih =>
+    intro k bi bv
+    by_cases hx : bv < x
+    · have e : argmaxGo (x :: t) k bi bv = argmaxGo t (k + 1) k x := by
+        simp [argmaxGo, RealLike.lt, hx]
+      rw [e]
+      right
+      rcases ih (k + 1) k x with ⟨h1, h2⟩ | ⟨j, hj, h1, h2, h3, h4⟩
+      · refine ⟨0, by simp, by simpa using h1, by simpa using hx, ?_, by intro i hi; omega⟩
+        intro y hy
+        rcases List.mem_cons.mp hy with rfl | hy
+        · simp
+        · simpa using h2 y hy
+      · refine ⟨j + 1, by simp; omega, by rw [h1]; omega, by simpa using lt_trans hx h2, ?_, ?_⟩
+        · intro y hy
+          rcases List.mem_cons.mp hy with rfl | hy
+          · simpa using h2.le
+          · simpa using h3 y hy
+        · intro i hi
+          cases i with
+          | zero => simpa using h2
+          | succ i => simpa using h4 i (by omega)
+    · have e : argmaxGo (x :: t) k bi bv = argmaxGo t (k + 1) bi bv := by
+        simp [argmaxGo, RealLike.lt, hx]
+      rw [e]
+      have hx' : x ≤ bv := not_lt.mp hx
+      rcases ih (k + 1) bi bv with ⟨h1, h2⟩ | ⟨j, hj, h1, h2, h3, h4⟩
+      · left
+        refine ⟨h1, ?_⟩
+        intro y hy
+        rcases List.mem_cons.mp hy with rfl | hy
+        · exact hx'
+        · exact h2 y hy
+      · right
+        refine ⟨j + 1, by simp; omega, by rw [h1]; omega, by simpa using h2, ?_, ?_⟩
+        · intro y hy
+          rcases List.mem_cons.mp hy with rfl | hy
+          · simpa using (lt_of_le_of_lt hx' h2).le
+          · simpa using h3 y hy
+        · intro i hi
+          cases i with
+          | zero => simpa using lt_of_le_of_lt hx' h2
+          | succ i => simpa using h4 i (by omega)
+
+/-- `np.argmax`: a valid index, a maximum, and the FIRST one -/
+theorem argmax_spec (l : List ℝ) (hl : l ≠ []) :
+    ∃ h : argmax l < l.length, (∀ x ∈ l, x ≤ l[argmax l]) ∧ ∀ i (hi : i < argmax l), l[i] < l[argmax l] := by
+  cases l with
+  | nil => exact absurd rfl hl
+  | cons x t =>
+    rcases argmaxGo_spec t 1 0 x with ⟨h1, h2⟩ | ⟨j, hj, h1, h2, h3, h4⟩
+    · have e : argmax (x :: t) = 0 := h1
+      refine ⟨by rw [e]; simp, ?_, by intro i hi; omega⟩
+      intro y hy
+      simp only [e, List.getElem_cons_zero]
+      rcases List.mem_cons.mp hy with rfl | hy
+      · exact le_refl _
+      · exact h2 y hy
+    · have e : argmax (x :: t) = j + 1 := by show argmaxGo t 1 0 x = _; rw [h1]; omega
+      refine ⟨by rw [e]; simp; omega, ?_, ?_⟩
+      · intro y hy
+        simp only [e, List.getElem_cons_succ]
+        rcases List.mem_cons.mp hy with rfl | hy
+        · exact h2.le
+        · exact h3 y hy
+      · intro i hi
+        simp only [e, List.getElem_cons_succ]
+        cases i with
+        | zero => simpa using h2
+        | succ i => simpa using h4 i (by omega)
+
+/-- the `true` entries of a mask form an interval of indices -/
+def IsInterval (mask : List Bool) : Prop :=
+  ∀ i j k : Nat, i < j → j < k → mask[i]? = some true → mask[k]? = some true → mask[j]? = some true
+
+theorem IsInterval.tail {a : Bool} {l : List Bool} (h : IsInterval (a :: l)) : IsInterval l := by
+  intro i j k hij hjk hi hk
+  have := h (i + 1) (j + 1) (k + 1) (by omega) (by omega) (by simpa using hi) (by simpa using hk)
+  simpa using this
+
+/-- on a sorted frequency axis the search mask is an interval -/
+theorem searchMask_interval (freqs : List ℝ) (g s : ℝ) (hs : freqs.Pairwise (· ≤ ·)) :
+    IsInterval (searchMask freqs g s) := by
+  intro i j k hij hjk hi hk
+  simp only [searchMask, List.getElem?_map, Option.map_eq_some_iff] at hi hk ⊢
+  obtain ⟨fi, hfi, ei⟩ := hi
+  obtain ⟨fk, hfk, ek⟩ := hk
+  obtain ⟨hkl, rfl⟩ := List.getElem?_eq_some_iff.mp hfk
+  obtain ⟨hil, rfl⟩ := List.getElem?_eq_some_iff.mp hfi
+  have hjl : j < freqs.length := by omega
+  refine ⟨freqs[j], List.getElem?_eq_getElem hjl, ?_⟩
+  have h1 : freqs[i] ≤ freqs[j] := List.pairwise_iff_getElem.mp hs i j hil hjl hij
+  have h2 : freqs[j] ≤ freqs[k] := List.pairwise_iff_getElem.mp hs j k hjl hkl hjk
+  simp only [RealLike.lt, Bool.and_eq_true, decide_eq_true_eq] at ei ek ⊢
+  exact ⟨lt_of_lt_of_le ei.1 h1, lt_of_le_of_lt h2 ek.2⟩
+
+theorem interval_true_head (ms : List Bool) (h : IsInterval (true :: ms)) :
+    ∃ c rest, ms = List.replicate c true ++ rest ∧ ∀ b ∈ rest, b = false := by
+  induction ms with
+  | nil => exact ⟨0, [], rfl, by simp⟩
+  | cons b ms ih =>
+    cases b with
+    | true =>
+      obtain ⟨c, rest, e, hr⟩ := ih h.tail
+      exact ⟨c + 1, rest, by rw [e]; rfl, hr⟩
+    | false =>
+      refine ⟨0, false :: ms, rfl, ?_⟩
+      intro b hb
+      rcases List.mem_cons.mp hb with rfl | hb
+      · rfl
+      · cases b with
+        | false => rfl
+        | true =>
+          obtain ⟨k, hk, e⟩ := List.getElem_of_mem hb
+          have := h 0 1 (k + 2) (by omega) (by omega) (by simp) (by simp [e, hk])
+          simp at this
+
+theorem firstTrue_decomp (mask : List Bool) (i : Nat) (h : firstTrue mask = some i) :
+    ∃ ms, mask = List.replicate i false ++ true :: ms := by
+  induction mask generalizing i with
+  | nil => simp [firstTrue] at h
+  | cons b t ih =>
+    cases b with
+    | true =>
+      simp only [firstTrue, Option.some.injEq] at h
+      subst h
+      exact ⟨t, rfl⟩
+    | false =>
+      simp only [firstTrue, Option.map_eq_some_iff] at h
+      obtain ⟨i', hi', rfl⟩ := h
+      obtain ⟨ms, e⟩ := ih i' hi'
+      exact ⟨ms, by rw [e]; rfl⟩
+
+theorem IsInterval.drop_false (i : Nat) (M : List Bool) (h : IsInterval (List.replicate i false ++ M)) :
+    IsInterval M := by
+  induction i with
+  | zero => simpa using h
+  | succ i ih => exact ih (by rw [List.replicate_succ, List.cons_append] at h; exact h.tail)
+
+theorem maskSelect_false_prefix {β : Type} (i : Nat) (xs : List β) (M : List Bool) :
+    maskSelect xs (List.replicate i false ++ M) = maskSelect (xs.drop i) M := by
+  induction i generalizing xs with
+  | zero => simp
+  | succ i ih =>
+    cases xs with
+    | nil => cases M <;> simp [maskSelect]
+    | cons x xs => simp [maskSelect, List.replicate_succ, ih]
+
+theorem maskSelect_all_false {β : Type} (xs : List β) (R : List Bool) (h : ∀ b ∈ R, b = false) :
+    maskSelect xs R = [] := by
+  induction R generalizing xs with
+  | nil => cases xs <;> simp [maskSelect]
+  | cons b R ih =>
+    have hb : b = false := h b (by simp)
+    subst hb
+    cases xs with
+    | nil => simp [maskSelect]
+    | cons x xs => simp only [maskSelect]; exact ih xs (fun b hb => h b (by simp [hb]))
+
+theorem maskSelect_true_prefix {β : Type} (c : Nat) (xs : List β) (R : List Bool)
+    (h : ∀ b ∈ R, b = false) :
+    maskSelect xs (List.replicate c true ++ R) = xs.take c := by
+  induction c generalizing xs with
+  | zero => simpa using maskSelect_all_false xs R h
+  | succ c ih =>
+    cases xs with
+    | nil => cases R <;> simp [maskSelect]
+    | cons x xs => simp [maskSelect, List.replicate_succ, ih]
+
+/-- the peak bin is a bin of the search range, holds the largest magnitude of the range, and is the
+    first such bin (sorted frequency axis, as `np.fft.rfftfreq` returns it) -/
+theorem peakBin_spec' (freqs mags : List ℝ) (g s : ℝ) (m : Nat)
+    (hs : freqs.Pairwise (· ≤ ·)) (hlen : mags.length = freqs.length)
+    (h : peakBin freqs mags g s = some m) :
+    ∃ hm : m < mags.length, (searchMask freqs g s)[m]? = some true ∧
+      (∀ j (hj : j < mags.length), (searchMask freqs g s)[j]? = some true → mags[j] ≤ mags[m]) ∧
+      (∀ j (hj : j < mags.length), j < m → (searchMask freqs g s)[j]? = some true → mags[j] < mags[m]) := by
+  simp only [peakBin, Option.map_eq_some_iff] at h
+  obtain ⟨i, hi, rfl⟩ := h
+  obtain ⟨ms, e⟩ := firstTrue_decomp _ i hi
+  have hint := searchMask_interval freqs g s hs
+  rw [e] at hint
+  obtain ⟨c, rest, e2, hr⟩ := interval_true_head ms hint.drop_false
+  have emask : searchMask freqs g s = List.replicate i false ++ (List.replicate (c + 1) true ++ rest) := by
+    rw [e, e2]; rfl
+  have hml : (searchMask freqs g s).length = mags.length := by simp [searchMask, hlen]
+  have hlen2 : i + (c + 1) + rest.length = mags.length := by
+    rw [← hml, emask]; simp; omega
+  have hsel : maskSelect mags (searchMask freqs g s) = (mags.drop i).take (c + 1) := by
+    rw [emask, maskSelect_false_prefix, maskSelect_true_prefix _ _ _ hr]
+  rw [hsel]
+  have hsl : ((mags.drop i).take (c + 1)).length = c + 1 := by simp; omega
+  obtain ⟨ha, hmax, hfirst⟩ := argmax_spec ((mags.drop i).take (c + 1)) (by
+    intro h0; rw [h0] at hsl; simp at hsl)
+  rw [hsl] at ha
+  have hval : ∀ a (h : a < c + 1), ((mags.drop i).take (c + 1))[a]'(by rw [hsl]; exact h)
+      = mags[i + a]'(by omega) := by
+    intro a h
+    simp [List.getElem_take, List.getElem_drop]
+  have hmaskj : ∀ j, (searchMask freqs g s)[j]? = some true → i ≤ j ∧ j < i + (c + 1) := by
+    intro j hj
+    rw [emask] at hj
+    by_cases h1 : j < i
+    · rw [List.getElem?_append_left (by simpa using h1)] at hj
+      simp [h1] at hj
+    · refine ⟨by omega, ?_⟩
+      by_contra h2
+      rw [List.getElem?_append_right (by simp; omega), List.getElem?_append_right (by simp; omega)] at hj
+      have := List.mem_of_getElem? hj
+      exact absurd (hr _ this) (by simp)
+  refine ⟨by omega, ?_, ?_, ?_⟩
+  · rw [emask, List.getElem?_append_right (by simp), List.getElem?_append_left (by simp; omega)]
+    simp [List.getElem?_replicate]; omega
+  · intro j hj hjm
+    obtain ⟨h1, h2⟩ := hmaskj j hjm
+    have := hmax (mags[j]) (by
+      have : mags[j] = ((mags.drop i).take (c + 1))[j - i]'(by rw [hsl]; omega) := by
+        rw [hval (j - i) (by omega)]; congr 1; omega
+      rw [this]; exact List.getElem_mem _)
+    rw [hval _ ha] at this
+    exact this
+  · intro j hj hjlt hjm
+    obtain ⟨h1, h2⟩ := hmaskj j hjm
+    have := hfirst (j - i) (by omega)
+    rw [hval _ ha, hval (j - i) (by omega)] at this
+    have e3 : i + (j - i) = j := by omega
+    simpa [e3] using this
+
+/-- an answer of the whole estimator is an answer of `drivePost` on the three bins around the
+    peak bin -/
+theorem estimateDrive_ok' (freqs mags : List ℝ) (g s delta npts tp sw sw2 : ℝ) (r : DriveEst ℝ)
+    (h : estimateDrive freqs mags g s delta npts tp sw sw2 = .ok r) :
+    ∃ m x0 x1 x2 a0 a1 a2, peakBin freqs mags g s = some m ∧ 0 < m ∧
+      freqs[m - 1]? = some x0 ∧ freqs[m]? = some x1 ∧ freqs[m + 1]? = some x2 ∧
+      mags[m - 1]? = some a0 ∧ mags[m]? = some a1 ∧ mags[m + 1]? = some a2 ∧
+      drivePost m x0 x1 x2 a0 a1 a2 g s delta npts tp sw sw2 = .ok r := by
+  unfold estimateDrive at h
+  split at h
+  · cases h
+  · rename_i m hm
+    split at h
+    · cases h
+    · rename_i hm0
+      split at h
+      · rename_i x0 x1 x2 a0 a1 a2 e0 e1 e2 e3 e4 e5
+        exact ⟨m, x0, x1, x2, a0, a1, a2, hm, by omega, e0, e1, e2, e3, e4, e5, h⟩
+      · cases h
+
 end Verif.C11
